@@ -247,6 +247,9 @@ func c20StatsOne(r *Run, nh int, oc, kind string) {
 		sopts = append(sopts, goat.StatsHandler(s))
 	}
 	in := map[string]any{"handlers": nh, "outcome": oc, "kind": kind}
+	if oc == "transport-failure" {
+		in["read_error"] = []string{"injected", "io.EOF", "wrapped io.ErrUnexpectedEOF"}[nh%3]
+	}
 	r.Progress("stats", in)
 	rig := NewRig(RigOpt{Serialise: true, DialOpts: dopts, SrvOpts: sopts})
 	release := make(chan struct{})
@@ -313,7 +316,8 @@ func c20StatsOne(r *Run, nh int, oc, kind string) {
 		case "cancel":
 			cancel()
 		case "transport-failure":
-			rig.CEnd.FailRead(errInjectedRead)
+			// what a dead transport reports varies: a cleanly closed byte stream says io.EOF
+			rig.CEnd.FailRead([]error{errInjectedRead, io.EOF, fmt.Errorf("read: %w", io.ErrUnexpectedEOF)}[nh%3])
 		}
 	}
 	var err error
@@ -351,6 +355,12 @@ func c20StatsOne(r *Run, nh int, oc, kind string) {
 		r.Violate("stats.hang", "ops", "RPC did not finish", in, goroutineDump(), nil)
 	}
 	success := err == nil
+	if success && (oc == "transport-failure" || oc == "cancel" || oc == "handler-error" || oc == "ok-coded-error") && kind != "unary" {
+		// the handler never returned nil (it was cut off, cancelled, or failed): this RPC did not succeed,
+		// whatever the caller was told
+		r.Violate("stats.outcome", "ops", "an RPC that did not succeed ("+oc+") was reported to the caller as completed: its stats End says success as well", in, "RecvMsg: io.EOF", "an error")
+		success = false
+	}
 	// the client's End is emitted by the stream's read loop; wait for it rather than guess
 	deadline := time.Now().Add(hangTimeout)
 	for _, c := range crecs {
